@@ -201,23 +201,17 @@ C11_OwnFlagOnly == [][\A c \in Chans : (~pset[c] /\ pset'[c]) =>
 (* C17: the subscriber is told each applied event once, in order, with the resulting record *)
 C17_InOrder == \A c \in Chans : Len(delivered[c]) <= hist[c].applied
 C17_Complete == \A c \in Chans : <>[](crashes > 0 \/ Len(delivered[c]) = hist[c].applied)
+ArgOf(e, p, n) ==
+  CASE e = "DataReceived" -> n.rIdx [] e = "DataSent" -> n.sIdx [] e = "DataQueued" -> n.qIdx
+    [] e = "DataReceivedProgress" -> n.received - p.received [] e = "DataSentProgress" -> n.sent - p.sent [] e = "DataQueuedProgress" -> n.queued - p.queued
+    [] e = "SetDataLimit" -> n.limit [] e = "SetRequiresFinalization" -> n.reqFin
+    [] e \in ErrNotice \cup {"Error"} -> n.msg
+    [] e = "NewVoucher" -> (IF n.vouchers = << >> THEN "" ELSE n.vouchers[Len(n.vouchers)])
+    [] e = "NewVoucherResult" -> (IF n.results = << >> THEN "" ELSE n.results[Len(n.results)])
+    [] OTHER -> 0
 C17_Snapshots == \A c \in Chans : \A i \in 1..Len(delivered[c]) :
-      i > 1 => LET p == delivered[c][i-1].rec  n == delivered[c][i] IN
-                 \/ \E a \in {n.rec.msg, n.rec.limit, n.rec.reqFin, n.rec.qIdx, n.rec.sIdx, n.rec.rIdx, 1, 2, 3,
-                              IF n.rec.vouchers = << >> THEN "" ELSE n.rec.vouchers[Len(n.rec.vouchers)],
-                              IF n.rec.results = << >> THEN "" ELSE n.rec.results[Len(n.rec.results)]} :
-                       Apply(p, n.ev, a).kind = "applied" /\ Apply(p, n.ev, a).rec = n.rec
-                 \/ crashes > 0
-
-(* C06: the durable record is always one that some prefix of the applied events produced: it only changes by *)
-(* Persist of a planned record, so a crash between any two steps leaves a state that was current once.      *)
-C06_Prefix == \A c \in Chans : (pset[c] => Apply(store[c], Head(q[c] \o << <<"Open", 0>> >>)[1], 0).kind \in {"applied","invalid","term"}) /\ store[c].status \in Status
-
-(* C19: voucher logs are append-only *)
-C19_AppendOnly == [][\A c \in Chans : /\ Len(store'[c].vouchers) >= Len(store[c].vouchers)
-                                      /\ SubSeq(store'[c].vouchers, 1, Len(store[c].vouchers)) = store[c].vouchers
-                                      /\ Len(store'[c].results) >= Len(store[c].results)
-                                      /\ SubSeq(store'[c].results, 1, Len(store[c].results)) = store[c].results]_vars
+      (i > 1 /\ crashes = 0) => LET p == delivered[c][i-1].rec  n == delivered[c][i] IN
+                 (Apply(p, n.ev, ArgOf(n.ev, p, n.rec)).kind = "applied" /\ Apply(p, n.ev, ArgOf(n.ev, p, n.rec)).rec = n.rec)
 
 (* C07: totals and indexes never decrease *)
 C07_Monotone == [][\A c \in Chans : /\ store'[c].queued >= store[c].queued /\ store'[c].sent >= store[c].sent
